@@ -107,8 +107,12 @@ func vhBatchShape(p int, x []byte) map[hotstuff.ID][]byte {
 		return map[hotstuff.ID][]byte{1: x[0:2], 2: x[2:3]}
 	case 1:
 		return map[hotstuff.ID][]byte{1: x[0:1], 2: x[1:3]}
-	default:
+	case 2:
 		return map[hotstuff.ID][]byte{1: x[0:2], 3: x[2:3]}
+	case 3: // a superset of shape 0: one more entry for a third replica
+		return map[hotstuff.ID][]byte{1: x[0:2], 2: x[2:3], 3: x[0:1]}
+	default: // a subset of shape 0
+		return map[hotstuff.ID][]byte{1: x[0:2]}
 	}
 }
 
